@@ -297,7 +297,7 @@ fn lab_config() -> LabConfig {
 
 /// What a programmable mock backend does with the request carrying `x-lab-req: <n>`.
 #[derive(Clone, Debug)]
-enum Act {
+pub(crate) enum Act {
     Respond { bytes: Vec<u8>, cut: Option<usize>, reset: bool, pause_before_close: bool, stall_after_cut: bool, close_after: bool, delay_ms: u64 },
     CloseWithoutAnswer { reset: bool },
     Stall,
@@ -309,19 +309,19 @@ enum Act {
 }
 
 #[derive(Clone, Debug)]
-struct Rec {
-    backend: usize,
-    lab_req: Option<usize>,
-    complete: bool,
-    body: Vec<u8>,
-    start_line: String,
-    invalid: Option<String>,
+pub(crate) struct Rec {
+    pub(crate) backend: usize,
+    pub(crate) lab_req: Option<usize>,
+    pub(crate) complete: bool,
+    pub(crate) body: Vec<u8>,
+    pub(crate) start_line: String,
+    pub(crate) invalid: Option<String>,
 }
 
 #[derive(Default)]
-struct Shared {
-    actions: BTreeMap<usize, Act>,
-    recorded: Vec<Rec>,
+pub(crate) struct Shared {
+    pub(crate) actions: BTreeMap<usize, Act>,
+    pub(crate) recorded: Vec<Rec>,
 }
 
 /// keep the connection open without sending anything until the peer closes it (or 20 s)
@@ -338,7 +338,7 @@ fn stall_until_peer_closes(s: &mut TcpStream) {
     }
 }
 
-fn serve(backend: usize, stream: TcpStream, shared: Arc<Mutex<Shared>>) {
+pub(crate) fn serve(backend: usize, stream: TcpStream, shared: Arc<Mutex<Shared>>) {
     let mut w = stream.try_clone().expect("clone");
     let mut c = H1Conn::new(stream);
     loop {
@@ -465,7 +465,7 @@ fn serve(backend: usize, stream: TcpStream, shared: Arc<Mutex<Shared>>) {
 }
 
 /// (serialised response, body) of the backend's 200 for request `n`
-fn response_bytes(n: usize, seed: u64, len: usize, framing: &BodyFraming, conn_close: bool) -> (Vec<u8>, Vec<u8>) {
+pub(crate) fn response_bytes(n: usize, seed: u64, len: usize, framing: &BodyFraming, conn_close: bool) -> (Vec<u8>, Vec<u8>) {
     let body = content(seed, len);
     let (extra, wire) = h1::encode_body(&body, framing, &[]);
     let mut hs: Vec<(String, String)> = vec![("x-lab-resp".into(), n.to_string())];
@@ -479,7 +479,7 @@ fn response_bytes(n: usize, seed: u64, len: usize, framing: &BodyFraming, conn_c
 }
 
 /// an address that refuses connections for as long as the returned socket lives: bound, never listening
-fn bound_not_listening() -> (SocketAddr, std::os::fd::OwnedFd) {
+pub(crate) fn bound_not_listening() -> (SocketAddr, std::os::fd::OwnedFd) {
     use std::os::fd::{FromRawFd, OwnedFd};
     for _ in 0..50 {
         let addr = lab::free_addr();
@@ -616,7 +616,7 @@ fn request_bytes(n: usize, host: &str, body: &[u8], chunked: &Option<Vec<usize>>
 }
 
 /// byte offset of a cut in a serialised response
-fn cut_offset(bytes: &[u8], at: &CutPos) -> usize {
+pub(crate) fn cut_offset(bytes: &[u8], at: &CutPos) -> usize {
     let total = bytes.len();
     let sl = bytes.windows(2).position(|w| w == b"\r\n").expect("status line");
     let head_len = bytes.windows(4).position(|w| w == b"\r\n\r\n").expect("head") + 4;
@@ -629,7 +629,7 @@ fn cut_offset(bytes: &[u8], at: &CutPos) -> usize {
     }
 }
 
-const GARBAGE: &[&[u8]] = &[
+pub(crate) const GARBAGE: &[&[u8]] = &[
     b"\x00\x01\x02\x03\xff\xfe binary \r\n\r\n",
     b"SSH-2.0-OpenSSH_9.6\r\n",
     b"GET / HTTP/1.1\r\nHost: this.is.a.request\r\n\r\n",
@@ -1372,7 +1372,7 @@ fn child(args: &Args, total: u64) -> Stats {
 
 pub fn run(args: &Args) -> i32 {
     if args.shard.is_some() {
-        let st = child(args, args.cases(480, 6_000));
+        let st = if args.only.as_deref() == Some(super::c02_h2::SUB) { super::c02_h2::child(args, args.cases(super::c02_h2::QUICK, super::c02_h2::THOROUGH)) } else { child(args, args.cases(480, 6_000)) };
         return engine::shard::child_finish(args, &st);
     }
     let mut ev = Evidence::new(args, "fault_enumeration");
@@ -1416,5 +1416,7 @@ pub fn run(args: &Args) -> i32 {
         ev.floor(SUB, class, floor);
     }
     engine::shard::run_sharded(&mut ev, args, SUB, 16, Duration::from_secs(args.tier.pick(900, 7200)));
+    super::c02_h2::describe(&mut ev, args.replay.is_some());
+    engine::shard::run_sharded(&mut ev, args, super::c02_h2::SUB, 16, Duration::from_secs(args.tier.pick(900, 7200)));
     ev.finish()
 }
